@@ -10,6 +10,9 @@ fn toks<S: Scalar>(v: &Value) -> Vec<S> {
 }
 fn bits<S: Scalar>(v: &[S]) -> Vec<u64> { v.iter().map(|x| x.to_u64()).collect() }
 fn exact_box<S: Scalar>(v: Vec<S>) -> Box<[S]> { v.into_boxed_slice() }
+/// one more canary in front: the slice handed to glam then starts one element into the allocation (not 16-byte aligned)
+fn canary_pad<S: Scalar>() -> S { S::from_u64(tok_bits(S::SC, "q3")) }
+fn padded<S: Scalar>(c: &[S]) -> Vec<S> { let mut v = vec![canary_pad::<S>()]; v.extend_from_slice(c); v }
 
 fn check(rep: &mut Report, c: &Value, ty: &str, what: &str, ok: bool, detail: String) {
     rep.evals += 1;
@@ -32,6 +35,11 @@ fn slice_vec<V: TV>(rep: &mut Report, c: &Value) {
             let r = catch(|| v.write_to_slice_(&mut buf[..]));
             check(rep, c, V::NAME, "write_to_slice: panics iff the slice is too short", r.is_err() == want_panic, format!("{:?}", r.err()));
             check(rep, c, V::NAME, "write_to_slice: destination (first N written, rest and everything on panic untouched)", bits(&buf) == bits(&exp_slice), format!("{:x?}", bits(&buf)));
+            // the same into a slice that starts one element into its allocation: a slice is only aligned like its element type
+            let mut off = exact_box(padded(&canary));
+            let r = catch(|| v.write_to_slice_(&mut off[1..]));
+            check(rep, c, V::NAME, "write_to_slice (slice at element offset 1): panics iff the slice is too short", r.is_err() == want_panic, format!("{:?}", r.err()));
+            check(rep, c, V::NAME, "write_to_slice (slice at element offset 1): destination", bits(&off[1..]) == bits(&exp_slice) && off[0].to_u64() == canary_pad::<V::S>().to_u64(), format!("{:x?}", bits(&off)));
         }
     } else {
         let buf = exact_box(canary.clone());
@@ -40,6 +48,13 @@ fn slice_vec<V: TV>(rep: &mut Report, c: &Value) {
         if let Ok(v) = r {
             let ev: Vec<V::S> = toks(&c["exp"]["value"]);
             check(rep, c, V::NAME, "from_slice: reads exactly the first N elements", v.to_bits() == bits(&ev), format!("{:x?}", v.to_bits()));
+        }
+        let off = exact_box(padded(&canary));
+        let r = catch(|| V::from_slice_(&off[1..]));
+        check(rep, c, V::NAME, "from_slice (slice at element offset 1): panics iff the slice is too short", r.is_err() == want_panic, String::new());
+        if let Ok(v) = r {
+            let ev: Vec<V::S> = toks(&c["exp"]["value"]);
+            check(rep, c, V::NAME, "from_slice (slice at element offset 1): reads exactly the first N elements", v.to_bits() == bits(&ev), format!("{:x?}", v.to_bits()));
         }
     }
 }
@@ -56,6 +71,10 @@ fn slice_mat<M: MT>(rep: &mut Report, c: &Value) {
         let r = catch(|| m.write_cols_to_slice_(&mut buf[..]));
         check(rep, c, M::NAME, "write_cols_to_slice: panics iff the slice is too short", r.is_err() == want_panic, format!("{:?}", r.err()));
         check(rep, c, M::NAME, "write_cols_to_slice: destination (first N written, rest and everything on panic untouched)", bits(&buf) == bits(&exp_slice), format!("{:x?}", bits(&buf)));
+        let mut off = exact_box(padded(&canary));
+        let r = catch(|| m.write_cols_to_slice_(&mut off[1..]));
+        check(rep, c, M::NAME, "write_cols_to_slice (slice at element offset 1): panics iff the slice is too short", r.is_err() == want_panic, format!("{:?}", r.err()));
+        check(rep, c, M::NAME, "write_cols_to_slice (slice at element offset 1): destination", bits(&off[1..]) == bits(&exp_slice) && off[0].to_u64() == canary_pad::<M::S>().to_u64(), format!("{:x?}", bits(&off)));
     } else {
         let buf = exact_box(canary.clone());
         let r = catch(|| M::from_cols_slice_(&buf[..]));
@@ -63,6 +82,13 @@ fn slice_mat<M: MT>(rep: &mut Report, c: &Value) {
         if let Ok(m) = r {
             let ev: Vec<M::S> = toks(&c["exp"]["value"]);
             check(rep, c, M::NAME, "from_cols_slice: reads exactly the first N elements", bits(&m.flat()) == bits(&ev), String::new());
+        }
+        let off = exact_box(padded(&canary));
+        let r = catch(|| M::from_cols_slice_(&off[1..]));
+        check(rep, c, M::NAME, "from_cols_slice (slice at element offset 1): panics iff the slice is too short", r.is_err() == want_panic, String::new());
+        if let Ok(m) = r {
+            let ev: Vec<M::S> = toks(&c["exp"]["value"]);
+            check(rep, c, M::NAME, "from_cols_slice (slice at element offset 1): reads exactly the first N elements", bits(&m.flat()) == bits(&ev), String::new());
         }
     }
 }
